@@ -340,7 +340,7 @@ type Global struct {
 
 	builtinMts  map[int]LValue
 	tempFiles   []*os.File
-	openFiles   []*lFile // files opened by name that are still open: flushed and closed by LState.Close
+	openFiles   []*lFile // open files with a buffered writer: flushed and closed by LState.Close
 	gccount     int32
 	resumeDepth int // coroutines currently resumed inside one another
 }
